@@ -798,6 +798,19 @@ func AppendProbe[T any](sl []T, label string) {
 	}
 }
 
+// ElemsProbe is inserted before clear(x) / copy(x, ...) on a probed slice:
+// every element of x is about to be overwritten in place.
+func ElemsProbe[T any](sl []T, label string) {
+	s := must()
+	if s.aborted {
+		return
+	}
+	s.keep = append(s.keep, sl)
+	for i := range sl {
+		s.point(request{kind: KWrite, obj: unsafe.Pointer(&sl[i]), label: label + "[i]"})
+	}
+}
+
 // ReadAddr is a probed read of an arbitrary address (the harness reading an
 // element of a snapshot, as user code would).
 func (s *Sim) ReadAddr(p unsafe.Pointer, label string) {
